@@ -70,7 +70,13 @@ typedef struct {
   unsigned flags;
   void (*plan)(opplan_t* pl, rng_t* r, const env_t* e);
   void (*call)(const opplan_t* pl, void* const p[OP_MAXB], const env_t* e);
+  const char* twin;  // optional: name whose plan/data stream this entry shares (a *_simple function and its table-based
+                     // twin get identical arguments from the same seed, so their outputs must be bit-identical)
 } opdef_t;
+int op_find(const char* name);
+// hash of every byte of the shared objects of an environment whose layout is known (module structs, twiddle
+// and omega tables, NTT metadata, conversion tables): must never change after creation
+uint64_t env_hash(const env_t* e, uint64_t* bytes);
 extern const opdef_t OPS[];
 extern const int N_CAT_OPS;
 
